@@ -196,6 +196,9 @@ pub fn grammar(full: bool) -> Vec<String> {
         g.insert(format!("CAP LS {}", x));
         g.insert(format!("CONNECT a.b {}", x));
     }
+    for l in ["MODE #pre", "MODE #pre +b", "MODE #pre -b", "MODE #pre +e", "MODE #pre +I", "MODE #pre b", "MODE #pre -b evil*!*@*", "MODE #pre +b evil*!*@*", "MODE #pre -e evil1!*@*", "MODE #pre -o me", "MODE #pre -v bob", "MODE #pre +o ghost", "TOPIC #pre", "TOPIC #pre :", "NAMES #pre", "LIST #pre", "WHO #pre", "PART #pre", "JOIN #pre", "KICK #pre bob", "KICK #pre me", "INVITE zed #pre", "PRIVMSG @#pre :x", "PRIVMSG +#pre :x", "PRIVMSG #pre :x"] {
+        g.insert(l.to_string());
+    }
     for l in ["CAP LS 302", "CAP LIST", "CAP REQ :multi-prefix", "CAP REQ :foo", "CAP REQ", "CAP END", "CAP", "OPER op oppw", "OPER op bad", ":src PRIVMSG bob :x", ":a!b PING x", ":a@b!c PING x", ": PING x", ":", " ", "", "PING", "   PING   x   ", "STATS u", "STATS m", "STATS x", "STATS uu", "HELP", "HELP MAIN", "HELP NOPE", "PASS x", "PASS :", "USER", "USER a b c", "USER a.b 0 * :r", "USER #a 0 * :r", "NICK #a", "NICK a:b", "LINKS a.b *.c", "LINKS a b", "SQUIT other.net :x", "TIME a.b", "TIME ab", "MOTD a.b", "VERSION *", "ADMIN x"] {
         g.insert(l.to_string());
     }
@@ -252,11 +255,23 @@ pub const SESSIONS: [Sess; 10] = [Sess::Unregistered, Sess::MidCap, Sess::Alone,
 
 fn session_scn(sess: Sess, full: bool, pairs: bool) -> ChatScn {
     let cfg = Cfg {
-        label: "oper".into(),
+        label: "oper+preconfigured-#pre".into(),
         opers: vec![SpecOper {
             name: "op".into(),
             password: "oppw".into(),
             mask: None,
+        }],
+        // a channel declared in the configuration, with every list and rank list filled
+        // (what start-up creates differs from what commands create)
+        channels: vec![crate::scn::CfgChan {
+            name: "#pre".into(),
+            topic: Some("configured".into()),
+            ban: vec!["evil*!*@*".into()],
+            exception: vec!["evil1!*@*".into()],
+            invite_exception: vec!["zed!*@*".into()],
+            operators: vec!["me".into(), "ghost".into()],
+            voices: vec!["bob".into(), "me".into()],
+            ..Default::default()
         }],
         ..Default::default()
     };
@@ -305,6 +320,10 @@ fn session_scn(sess: Sess, full: bool, pairs: bool) -> ChatScn {
         }
     }
     s.prelude.push((2, "JOIN #c".into()));
+    if actor_registered {
+        s.prelude.push((0, "JOIN #pre".into()));
+    }
+    s.prelude.push((1, "JOIN #pre".into()));
     let lines = grammar(full);
     let core: Vec<String> = if pairs {
         if full {
